@@ -16,7 +16,7 @@ from outrank import core_ranking as cr
 ID = 'C10'
 RULE = ('Frames of 2-5 feature columns + label (label anywhere), 2-40 rows, cell values from a deliberately collision-prone pool: every '
         'string of length 0-3 over {"1","a"}, composed and decomposed "e-acute", whitespace and separator-like strings (":", "-", ",", '
-        '" AND ", "2:", "1:1", case / whitespace / numeric-spelling variants); interaction orders 2-4; caps 1..C(k,order)+2; fresh sampler state. Non-trivial = the frame has two '
+        '" AND ", "2:", "1:1", case / whitespace / numeric-spelling variants); interaction orders 2-4; caps 1..C(k,order)+2; fresh sampler state; row index default or shuffled / with gaps / string labels. Non-trivial = the frame has two '
         'rows with different constituent tuples whose plain concatenations coincide, or >=2 distinct tuples and >=1 repeated tuple '
         '(for some emitted combination). A second clause builds production-size frames (3-4.2*10^5 rows, all joint values of two '
         'id-like columns distinct) on which any digest narrower than 64 bits collides. Distinct = digest of the case.')
@@ -38,7 +38,8 @@ def case_strategy(draw):
     order = draw(st.integers(2, min(4, k)))
     ncomb = math.comb(k, order)
     return {'cols': cols, 'label': label, 'label_pos': draw(st.integers(0, k)), 'order': order,
-            'cap': draw(st.integers(1, ncomb + 2))}
+            'cap': draw(st.integers(1, ncomb + 2)),
+            'index': draw(st.sampled_from(['range', 'range', 'range', 'shuffled', 'gaps', 'strings']))}
 
 
 def build(case):
@@ -48,7 +49,16 @@ def build(case):
     order_names = list(names)
     order_names.insert(min(case['label_pos'], k), 'label')
     data['label'] = case['label']
-    return pd.DataFrame({n: data[n] for n in order_names}), names
+    df = pd.DataFrame({n: data[n] for n in order_names})
+    kind = case.get('index', 'range')
+    n = len(df)
+    if kind == 'shuffled':      # e.g. a frame that was sorted / sampled before
+        df.index = [(7 * i + 3) % n if n % 7 else n - 1 - i for i in range(n)]
+    elif kind == 'gaps':        # e.g. a mask-filtered frame
+        df.index = [3 * i + 2 for i in range(n)]
+    elif kind == 'strings':
+        df.index = [f'r{i}' for i in range(n)]
+    return df, names
 
 
 def oracle(case, rec):
@@ -58,9 +68,12 @@ def oracle(case, rec):
     args = stubs.make_args(interaction_order=order, combination_number_upper_bound=cap, heuristic='MI-numba-randomized')
     stubs.reset_globals()
     out = cr.compute_combined_features(df, args, stubs.PBar())
-    rec.cls('order=%d' % order, 'capped' if cap < math.comb(len(feat), order) else 'uncapped')
+    rec.cls('order=%d' % order, 'capped' if cap < math.comb(len(feat), order) else 'uncapped', 'index=' + case.get('index', 'range'))
     if not df.equals(before):
         raise Violation('the input frame was modified in place', kind='C10/originals')
+    if len(out) != len(df) or list(out.index) != list(df.index):
+        raise Violation(f'row count / row labels changed: {len(df)} rows {list(df.index)[:5]} -> {len(out)} rows {list(out.index)[:5]}',
+                        kind='C10/originals')
     if list(out.columns[:df.shape[1]]) != list(df.columns) or not out[list(df.columns)].equals(before):
         raise Violation('original columns are not preserved as a prefix of the result', kind='C10/originals')
     new_cols = list(out.columns[df.shape[1]:])
